@@ -161,6 +161,10 @@ func (rhh *rawHttpHandlerV2) EventHandler(w http.ResponseWriter, req *http.Reque
 		Tags:           msg.Tags,
 	}
 
+	if event.DateHappened == 0 {
+		event.DateHappened = time.Now().Unix()
+	}
+
 	switch msg.Priority {
 	case pb.EventV2_Normal:
 		event.Priority = gostatsd.PriNormal
